@@ -896,13 +896,16 @@ func checkWidthDoc(res *Result, drv *DriverPool, d *wDoc, html string, sample bo
 }
 
 func runC10(res *Result, tier string, seed int64, replay string) {
-	res.Rule = "width documents: body width {600,500,480,640,700} × optional wrapper (boxed or full-width) × (section with 1–4 children: columns or groups of 1–3 columns; automatic / integer and fractional percentages / pixel widths | hero with images and dividers), every box with padding written in every form (absent, 1/2/3/4-value shorthand, per-side attributes alone and overriding a shorthand) and the lengths spelt in every way that means the same (20px, 20, 20.0px; values separated by a tab or two blanks, blanks around) and borders (all sides, border-left override); images and dividers without explicit width, with their own paddings (images also with their own border), images with an explicit width below and above what the column leaves, carousels; the column's padding / border written on the element, in an mj-class or as the mj-column default; first one feature at a time from a plain base (exhaustive list), then seeded combinations. Widths are scraped from the real output with the Lean lexer (wrapper / section max-width, Outlook td width per column and group, Outlook cells of columns inside groups, img width, divider Outlook table width) and compared (1) with the Model `Widths.impl` (driver `width`) exactly — the correspondence — and (2) with the Spec `Widths.spec` (driver `widthspec`, exact rationals): |Δ| < 1 px per rounding step, plus the sibling-sum clause. Non-trivial = padding/border/wrapper/hero/group somewhere or ≥2 columns; distinct by source"
+	res.Rule = "lengths: strings made of what a length may be written with (digits, points, signs, units in both cases, exponents, ASCII and Unicode white space, border shorthands) through strings.Fields / styles.ParseHorizontalSpacing / ParsePixel / ParseBorderWidth vs the Lean Model Core/Lengths (driver `len`; plain decimals are inside the number grammar, anything else only must not crash); width documents: body width {600,500,480,640,700} × optional wrapper (boxed or full-width) × (section with 1–4 children: columns or groups of 1–3 columns; automatic / integer and fractional percentages / pixel widths | hero with images and dividers), every box with padding written in every form (absent, 1/2/3/4-value shorthand, per-side attributes alone and overriding a shorthand) and the lengths spelt in every way that means the same (20px, 20, 20.0px; values separated by a tab or two blanks, blanks around) and borders (all sides, border-left override); images and dividers without explicit width, with their own paddings (images also with their own border), images with an explicit width below and above what the column leaves, carousels; the column's padding / border written on the element, in an mj-class or as the mj-column default; first one feature at a time from a plain base (exhaustive list), then seeded combinations. Widths are scraped from the real output with the Lean lexer (wrapper / section max-width, Outlook td width per column and group, Outlook cells of columns inside groups, img width, divider Outlook table width) and compared (1) with the Model `Widths.impl` (driver `width`) exactly — the correspondence — and (2) with the Spec `Widths.spec` (driver `widthspec`, exact rationals): |Δ| < 1 px per rounding step, plus the sibling-sum clause. Non-trivial = padding/border/wrapper/hero/group somewhere or ≥2 columns; distinct by source"
 	drv, err := startDriverPool(8)
 	if err != nil {
 		res.Disagree(Violation{Sig: "driver-missing", What: err.Error()})
 		return
 	}
 	defer drv.Close()
+	if replay == "" {
+		runC10Lengths(res, drv, tier, seed)
+	}
 	if replay != "" {
 		in := replayRaw(replay)
 		var d wDoc
